@@ -63,6 +63,14 @@ func randName(rng *rand.Rand) string {
 }
 
 func randNames(rng *rand.Rand) []string {
+	if rng.Intn(5) == 0 {
+		// names that share suffixes, the way search lists do (a compressing encoder would point into earlier names,
+		// and into names that end in a pointer themselves): a suffix chain, a repeated name, a sibling
+		base := randLabel(rng, pick(rng, 3, 7)) + "." + randLabel(rng, pick(rng, 2, 3))
+		a := randLabel(rng, 3) + "." + base
+		ns := []string{base, a, randLabel(rng, 3) + "." + a, base, randLabel(rng, 4) + "." + base}
+		return ns[:2+rng.Intn(4)]
+	}
 	ns := make([]string, rng.Intn(9))
 	for i := range ns {
 		ns[i] = randName(rng)
